@@ -11,6 +11,10 @@
 (***************************************************************************)
 EXTENDS World
 
+\* TLC evaluates [x \in S |-> e] lazily: e is re-evaluated at EVERY application.  Comparing the function with
+\* itself converts it into an explicit table once; wrap every table whose entries are expensive.
+Force(f) == IF f = f THEN f ELSE f
+
 PSZero(i, d) == <<i, i, VZero(d)>>
 PSIsZero(s) == s[1] = s[2] /\ \A k \in DOMAIN s[3] : s[3][k] = 0
 PSAdd(a, b) == <<a[1], b[2], VAdd(a[3], b[3])>>          \* meaningful iff a[2] = b[1]
